@@ -3,6 +3,10 @@ import ZV.Model.C24
   `c24 neg cmin cmax csuites cforce ccurves calpn smin smax ssuites sprefer scurves salpn skey srand`
      lists: comma-separated decimals, `d` = nil (library default), `-` = empty
      → `ok v=<n> s=<n> a=<id|-> can=<n|12|11>` | `fail` | `unmodelled`
+  `c24 seq <n> (<the 14 neg fields> <ccache: c|n> <stickets: x | key-index list>){n}`
+     n connections, one after the other, through ONE client session cache (ccache=c: this connection's client
+     Config uses it) against servers whose ticket keys are SetSessionTicketKeys(list) (x = SessionTicketsDisabled)
+     → per connection `ok v= s= a= can= r=<0|1 DidResume> t=<k|p|d cache entry kept/put/deleted>` | `fail t=<k|d>`, joined by ` | `
   `c24 mv <min> <max> <peer list>`  → `<version>` | `none`        (Config.mutualVersion)
   `c24 deprio <list>`               → list | `unmodelled`         (deprioritizeAES)
   `c24 sel <pref> <sup> <vers> <ecdheOk> <ecSignOk> <rsaSignOk> <rsaDecryptOk>` → id | `none`
@@ -29,8 +33,58 @@ def showCanary : Canary → String
 def parseBool : String → Option Bool
   | "1" => some true | "0" => some false | _ => none
 
+def parseConn : List String → Option Conn
+  | [cmin, cmax, cs, cf, cc, ca, smin, smax, ss, sp, sc, sa, sk, sr, cch, stk] =>
+    match cmin.toNat?, cmax.toNat?, parseList cs, parseBool cf, parseList cc, parseList ca,
+          smin.toNat?, smax.toNat?, parseList ss, parseBool sp, parseList sc, parseList sa, parseKey sk, parseCanary sr with
+    | some cmin, some cmax, some cs, some cf, some cc, some ca,
+      some smin, some smax, some ss, some sp, some sc, some sa, some sk, some sr =>
+      let useCache : Option Bool := if cch == "c" then some true else if cch == "n" then some false else none
+      let tkeys : Option (Option (List Nat)) :=
+        if stk == "x" then some none else
+        match parseList stk with
+        | some (some (k :: ks)) => some (some (k :: ks))
+        | _ => none
+      match useCache, tkeys with
+      | some useCache, some tkeys =>
+        some { c := { minV := cmin, maxV := cmax, suites := cs, force := cf, curves := cc, alpn := ca.getD [] },
+               s := { minV := smin, maxV := smax, suites := ss, prefer := sp, curves := sc, alpn := sa.getD [], key := sk, rand := sr },
+               useCache, tkeys }
+      | _, _ => none
+    | _, _, _, _, _, _, _, _, _, _, _, _, _, _ => none
+  | _ => none
+
+/-- split the argument list into chunks of 16 fields (fuel = the number of chunks announced) -/
+def parseConns : Nat → List String → Option (List Conn)
+  | 0, [] => some []
+  | 0, _ :: _ => none
+  | n + 1, l =>
+    match parseConn (l.take 16), parseConns n (l.drop 16) with
+    | some k, some ks => some (k :: ks)
+    | _, _ => none
+
+def showEv : CacheEv → String
+  | .keep => "k" | .put => "p" | .del => "d"
+
+def showStep (o : StepOut) : Option String :=
+  match o.res with
+  | .unmodelled => none
+  | .fail => some s!"fail t={showEv o.ev}"
+  | .done r => some s!"ok v={r.vers} s={r.suite} a={match r.alpn with | none => "-" | some a => toString a} can={showCanary r.canary} r={if o.resumed then 1 else 0} t={showEv o.ev}"
+
 def handle (args : List String) : String :=
   match args with
+  | "seq" :: n :: rest =>
+    match n.toNat? with
+    | none => "bad-op"
+    | some n =>
+      if n == 0 || n > 8 then "bad-op" else
+      match parseConns n rest with
+      | none => "bad-op"
+      | some ks =>
+        match (runSeq none ks).mapM showStep with
+        | none => "unmodelled"
+        | some l => " | ".intercalate l
   | ["neg", cmin, cmax, cs, cf, cc, ca, smin, smax, ss, sp, sc, sa, sk, sr] =>
     match cmin.toNat?, cmax.toNat?, parseList cs, parseBool cf, parseList cc, parseList ca,
           smin.toNat?, smax.toNat?, parseList ss, parseBool sp, parseList sc, parseList sa, parseKey sk, parseCanary sr with
